@@ -74,6 +74,10 @@ SPECS = {
                     'final': 'cs_final1', 'covers': [13]},
     'wrap_conc': {'name': 'wrap_conc', 'setup': 'cs_setup2', 'threads': [('cs_fill8_wrap_t1', 'cs_r_fallback'), (W, 'cs_w_store1')],
                   'final': 'cs_final2_release', 'covers': [13, 14]},
+    # --- C09: the subject (last thread) must finish alone after the others froze anywhere
+    'solo_store': {'name': 'solo_store', 'setup': 'cs_setup_pool', 'threads': [(W, 'cs_r_load_only'), (W, 'cs_w_store_pool1')], 'covers': []},
+    'solo_fb': {'name': 'solo_fb', 'setup': 'cs_setup_pool2', 'threads': [('cs_fill8_t1', 'cs_r_load_only'), (W, 'cs_w_store_pool1')], 'covers': []},
+    'solo_cold': {'name': 'solo_cold', 'setup': 'cs_setup_pool', 'threads': [(W, 'cs_exit_t1'), (W, 'cs_w_store_pool1'), (None, 'cs_w_cold_store')], 'covers': []},
     # --- C07: publication (M2hb)
     'pub_fast': {'name': 'pub_fast', 'setup': 'cs_setup1_scribble', 'threads': [(W, 'cs_r_published'), (W, 'cs_w_publish1')], 'covers': []},
     'pub_full': {'name': 'pub_full', 'setup': 'cs_setup1_scribble', 'threads': [(W, 'cs_r_published_full'), (W, 'cs_w_publish1')], 'covers': []},
@@ -303,4 +307,20 @@ def c07(ctx):
     for n in names:
         s = ctx.session('rel')
         r = conc.run_conc(s, SPECS[n], loop_bound=3, hb=True, timeout_s=900)
+        ctx.add(tag(r, flavor='rel'))
+
+
+
+@prop('C09')
+def c09(ctx):
+    import conc
+    ctx.bounds.update({'encoding': 'every other thread stops (is suspended for ever) after an arbitrary prefix of its events (symbolic cut), the subject then runs alone; a retry loop of the subject that iterates more than %d times on symbolic conditions, or a blocking call, is the violation' % 2,
+                       'subjects': ['store while a reader is frozen anywhere in a fast-path load', 'store while a reader is frozen anywhere in the fallback/helping load',
+                                    'first-use store by a new thread while another thread exited and a writer is frozen inside the debt walk (thorough)'],
+                       'memory_model': 'SC'})
+    ctx.outside += ['subjects other than store/swap started from a quiescent thread', 'more than 2 frozen threads']
+    names = [('solo_store', 2), ('solo_fb', 2)] if ctx.tier == 'quick' else [('solo_store', 2), ('solo_fb', 2), ('solo_cold', 3)]
+    for n, subj in names:
+        s = ctx.session('rel')
+        r = conc.run_conc(s, SPECS[n], loop_bound=2, subject=subj, timeout_s=900)
         ctx.add(tag(r, flavor='rel'))
